@@ -18,7 +18,7 @@ PROPS = {
     'C05': {'units': ['chal'], 'kani': [], 'exclude': r'canonical_width'},
     'C06': {'units': ['bind', 'pchain'], 'kani': []},
     'C17': {'units': ['cache'], 'kani': []},
-    'C10': {'units': ['sched'], 'kani': []},
+    'C10': {'units': ['sched', 'tracegen'], 'kani': []},
     'C18': {'units': ['dsu', 'order'], 'kani': []},
     'C14': {'units': ['pack', 'pack2'], 'kani': []},
     'C12': {'units': ['bits', 'chal', 'coef', 'rcair'], 'kani': [], 'only': {'chal': r'canonical_width'}},
@@ -27,7 +27,7 @@ PROPS = {
     'C09': {'units': ['prep', 'mult'], 'kani': []},
     'C08': {'units': ['mmcs', 'hash', 'mbind', 'vbatch'], 'kani': []},
     'C16': {'units': ['meta', 'vrfy'], 'kani': []},
-    'C11': {'units': ['air', 'alu', 'run19'], 'kani': [], 'only': {'run19': r'execute_alu_op'}},
+    'C11': {'units': ['air', 'alu', 'run19', 'tracegen'], 'kani': [], 'only': {'run19': r'execute_alu_op'}},
 }
 
 TB_COMMON = ['p3 field types satisfy the field laws the lemmas name; machine field arithmetic treated as mathematical',
@@ -254,7 +254,9 @@ META['C10'] = {
             'otherwise the Horner steps placed by the schedule (single or packed entries, in schedule order) are exactly the Horner operations in increasing order and the ordinary entries are exactly '
             'the other operations in increasing order -- every operation is placed exactly once; rows are complete; every Horner entry sits in lane 0; a packed entry covers 2..=pack_k contiguous '
             'operations with one b index; Horner entries in lane 0 of consecutive rows continue the same run of operations, a separator row precedes every run and row 0 starts with a separator. '
-            'The fill_row closure (hoisted to a function) completes the current row with the next pending ordinary operations, then separators. reduce_lanes_if_dummy returns 1 lane for dummy tables.',
+            'The fill_row closure (hoisted to a function) completes the current row with the next pending ordinary operations, then separators. reduce_lanes_if_dummy returns 1 lane for dummy tables. '
+            'Unit tracegen: the scheduled branch of AluAir::trace_to_matrix never indexes outside the value vector or the runner trace for any schedule (this obligation failed before fix F7: a short packed group ending '
+            'the op list), and the accumulator seeding a packed Horner row is the previous row lane-0 out (zero after a separator and on row 0), as the constraints read it.',
     'note': 'KERNEL: the scheduling mechanism named by the property. The statement itself (trace generation, proving and native verification succeed for every buildable circuit) spans the prover and the '
             'proof system and is not a function contract. Assumed: horner_ops_share_b_idx (iterator chain) says all listed operations read one b index; iter().any / saturating_sub / min / is_multiple_of / '
             'mem::take helper semantics; field elements opaque with decidable equality; preprocessed lane view generated from the real struct; that prep and prove call reduce_lanes_if_dummy with the same arguments is not checked.',
